@@ -29,9 +29,7 @@ ASSUMPTIONS = ["Rust semantics of Vec/usize as modelled (checked indexing, debug
                "f64::powf(|v|, 2.0) modelled as |v|*|v| (tie by tolerance 1e-12, not bit identity)",
                "the sampled cases are where model and code were compared; the theorems are about the model"]
 UNPROVED = ["floating-point accuracy of interpolation / quadrature (theorems are over R; the float instance is tied bit-for-bit and searched)",
-            "file formatting itself (only the token layout and parse-after-format are modelled). read_layout_roundtrip assumes parse (fmt x) = Ok x for every x: the real "
-            "formatter ({:.Ne}) satisfies that only for values that survive printing with N digits; for other values the implementation returns the mesh rounded to the printed "
-            "precision, which the executor's file round trip checks at run time (written file re-read, compared with the values re-parsed from the printed tokens)"]
+            "file formatting: the round trip is proved for every formatter/parser pair with parse (fmt x) = Ok (rnd x) (read_layout_roundtrip_rounded: the mesh comes back rounded entry by entry, nothing else changed; idempotent after one trip), and for concrete fixed-point `{:.N}` (what src/mesh1d.rs uses) and scientific formatters over Qc with round-half-even (fix_formatter_laws, sci_formatter_laws, file_roundtrip_fix*, with the parser's second rounding as an arbitrary fl); read on ANY token list is characterised (read1_ok_iff, read1_any_length: a truncated file is read silently into the old values). NOT proved: that Rust's std formatter IS fmt_fix (240 recorded outputs agree, MeshIO3Sample.v; differences: -0.00 for negative values rounding to zero, NaN/inf) and that f64::from_str is nearest-onto-the-floats (Section hypothesis); the executor's file round trip checks both at run time, writing onto an existing longer file"]
 
 MANIFEST = dict(
     text=("%d theorems about" % ntheorems("C19") + " the Gallina model of src/mesh1d.rs / src/mesh2d.rs (storage as the code stores it: node (i,j) at i*ny+j; every "
